@@ -845,7 +845,7 @@ type journalProp struct {
 }
 
 func (p *journalProp) Rule() string {
-	return "histories of 1-10 (thorough: 1-14) feeds over 1-4 trips produced by progress operators (advance, skip, reroute tail, extend, duplicate stop, step back, empty update, vanish/reappear, gain/lose vehicle, shared UID), non-monotone feed times included; every prefix of the history and three windows are compared with the model and checked by the oracle; distinct = distinct input JSON; non-trivial = at least 2 feeds and at least one journal entry in the widest window"
+	return "histories of 1-10 (thorough: 1-14) feeds over 1-4 trips produced by progress operators (advance, skip, reroute tail, extend, duplicate stop, step back, empty update, vanish/reappear, gain/lose vehicle, shared UID), non-monotone feed times included; one case in five uses trip ids shorter than the six-byte origin-time prefix, empty, exactly six bytes long or multi-byte; ids, routes, stops and tracks occasionally carry characters special to HTML, URLs or templates; every prefix of the history and three windows are compared with the model and checked by the oracle; distinct = distinct input JSON; non-trivial = at least 2 feeds and at least one journal entry in the widest window"
 }
 
 func (p *journalProp) N(tier string) int {
@@ -1012,7 +1012,7 @@ func (p *journalProp) Fixed() []map[string]any {
 }
 
 func init() {
-	props["C14"] = func() Prop { return &journalProp{id: "C14", oracle: oracleC14} }
-	props["C15"] = func() Prop { return &journalProp{id: "C15", oracle: oracleC15} }
-	props["C20"] = func() Prop { return &journalProp{id: "C20", oracle: oracleC20} }
+	props["C14"] = func() Prop { return &journalProp{id: "C14", oracle: oracleC14, odd: true} }
+	props["C15"] = func() Prop { return &journalProp{id: "C15", oracle: oracleC15, odd: true} }
+	props["C20"] = func() Prop { return &journalProp{id: "C20", oracle: oracleC20, odd: true} }
 }
